@@ -3,3 +3,4 @@ pub mod c06;
 pub mod c10;
 pub mod c16;
 pub mod c17;
+pub mod c18;
